@@ -195,6 +195,11 @@ def finalize(mod, tier, seed, results, wall, replay=None):
             else:
                 violations.append((r, v))
 
+    n_distinct = len(features)
+    if hasattr(mod, 'distinct_count'):
+        n_distinct = int(mod.distinct_count(
+            [r for r in results if not r.get('inconclusive')]))
+
     # verdict
     lines = []
     for sig, hits in sorted(known_hits.items()):
@@ -230,7 +235,7 @@ def finalize(mod, tier, seed, results, wall, replay=None):
         elif n_cases and n_inconclusive / n_cases > 0.10:
             inconclusive = (f'{n_inconclusive}/{n_cases} cases did not '
                             f'finish: {inconclusive_reasons}')
-        elif len(features) < 2 and replay is None:
+        elif n_distinct < 2 and replay is None:
             inconclusive = 'fewer than 2 distinct non-trivial cases'
 
     ev = {
@@ -240,7 +245,7 @@ def finalize(mod, tier, seed, results, wall, replay=None):
         'level': getattr(mod, 'LEVEL', 'exploration'),
         'coverage': {
             'evaluations': n_cases,
-            'distinct_nontrivial': len(features),
+            'distinct_nontrivial': n_distinct,
             'nontrivial_cases': n_nontrivial_cases,
             'rule': getattr(mod, 'RULE', ''),
             'samples': samples if samples else ['(no sample recorded)'],
@@ -273,7 +278,7 @@ def finalize(mod, tier, seed, results, wall, replay=None):
             json.dumps(ev, indent=1, default=str))
 
     print(f"[{prop}] tier={tier} seed={seed} cases={n_cases} "
-          f"distinct_nontrivial={len(features)} "
+          f"distinct_nontrivial={n_distinct} "
           f"inconclusive_cases={n_inconclusive} wall={wall:.1f}s")
     print(f"[{prop}] monitor counters: "
           f"{json.dumps(counters, sort_keys=True)}")
